@@ -81,12 +81,13 @@ def state_tracker(rep, tier):
         rs = common.read_ndjson(tr) if os.path.exists(tr) else []
         crashed = rc != 0 or not rs or rs[-1].get("case") != -1
         acc, rejects, results = trace.validate("SolverStateTrace", "SolverStateTrace.cfg", specdir, rs, tr + ".tlc", tag="c02s_%d" % i, chunk=200)
-        return crashed, o, acc, rejects, len(rs)
+        return crashed, o, acc, rejects, len(rs), rs[:5]
 
     with ThreadPoolExecutor(nproc) as ex:
         results = list(ex.map(drive, range(nproc)))
     nacc = ncalls = 0
-    for crashed, o, acc, rejects, n in results:
+    for crashed, o, acc, rejects, n, head in results:
+        rep.sample({"best_state_tracker_history": head}, limit=8)
         if crashed:
             rep.violation("best-state driver crashed", payload={"output": o[-3000:]})
         for k, rj in enumerate(rejects):
